@@ -5,11 +5,13 @@ from harness import common, doc_checks, tree_check
 def run(ctx: common.Ctx):
     tree_check.setup(ctx, 'C11')
     doc_checks.run_c11(ctx)
+    doc_checks.run_c11_comment_handover(ctx)
     tree_check.correspondence(ctx, 'C11')
 
 
 def search(ctx: common.Ctx):
     doc_checks.run_c11(ctx)
+    doc_checks.run_c11_comment_handover(ctx)
 
 
 def replay(ctx, path):
